@@ -514,15 +514,26 @@ package common
 // new current epoch. (That the shifted shufflings equal ones computed from scratch is a statement about histories: not claimed.)
 //@ sort SyncStateI = SyncCommitteeBeaconState
 //@ sort SCViewP = *SyncCommitteeView
+//@ sort ISCp = *IndexedSyncCommittee
+// the state's sync-committee views, and which view a cached (hydrated) committee was built from: assumed models
+//@ ufun st_cursync_err(SyncStateI) bool
+//@ ufun st_cursync(SyncStateI) SCViewP
+//@ ufun st_nextsync_err(SyncStateI) bool
+//@ ufun st_nextsync(SyncStateI) SCViewP
+//@ ufun sc_src(ISCp) SCViewP
 //@ func (s SyncCommitteeBeaconState) CurrentSyncCommittee() (r, err)
 //@   trusted
 //@   opt noalloc
+//@   ensures (err != nil) == st_cursync_err(s)
+//@   ensures err == nil ==> r == st_cursync(s)
 //@ func (s SyncCommitteeBeaconState) NextSyncCommittee() (r, err)
 //@   trusted
 //@   opt noalloc
+//@   ensures (err != nil) == st_nextsync_err(s)
+//@   ensures err == nil ==> r == st_nextsync(s)
 //@ func (epc *EpochsContext) hydrateSyncCommittee(view) (r, err)
 //@   trusted
-//@   ensures err == nil ==> r != nil
+//@   ensures err == nil ==> r != nil && sc_src(r) == view
 //@ func (epc *EpochsContext) RotateEpochs(state) err
 //@   property C08
 //@   panics off
@@ -532,6 +543,13 @@ package common
 //@   requires balances: epc.Spec.MAX_EFFECTIVE_BALANCE < 72057594037927936 && (forall v ValI :: {v_eb(v)} v_eb(v) < 72057594037927936)
 //@   assigns epc.PreviousEpoch, epc.CurrentEpoch, epc.NextEpoch, epc.Proposers, epc.EffectiveBalances, epc.TotalActiveStake, epc.TotalActiveStakeSqRoot, epc.CurrentSyncCommittee, epc.NextSyncCommittee, ghost(n_viter), ghost(viter_pos), ghost(viter_reg)
 //@   ensures shifted: err == nil ==> epc.PreviousEpoch == old(epc.CurrentEpoch) && epc.CurrentEpoch == old(epc.NextEpoch)
+// Sync-committee caches (C08: "the incremental path ... sync-committee rotation"): when the new current epoch starts a sync-committee
+// period and the state behind `state` has sync committees (an altair-or-later state - handed over directly, or held by the
+// repository's upgradeable wrapper, which is what ProcessSlots passes), the cached next committee becomes the current one (or the
+// current one is loaded from the state when there was none) and the next one is loaded from the state.
+//@   ensures c08_sync_direct@C08: err == nil && old(epc.NextEpoch.Epoch) % epc.Spec.EPOCHS_PER_SYNC_COMMITTEE_PERIOD == 0 && dynimpl(state, SyncCommitteeBeaconState) ==> epc.NextSyncCommittee != nil && sc_src(epc.NextSyncCommittee) == st_nextsync(state) && (old(epc.NextSyncCommittee) != nil ==> epc.CurrentSyncCommittee == old(epc.NextSyncCommittee)) && (old(epc.NextSyncCommittee) == nil ==> epc.CurrentSyncCommittee != nil && sc_src(epc.CurrentSyncCommittee) == st_cursync(state))
+//@   ensures c08_sync_wrapped@C08: err == nil && old(epc.NextEpoch.Epoch) % epc.Spec.EPOCHS_PER_SYNC_COMMITTEE_PERIOD == 0 && isptrto(state, beacon.StandardUpgradeableBeaconState) && dynimpl(old(unboxptr(state, beacon.StandardUpgradeableBeaconState).BeaconState), SyncCommitteeBeaconState) ==> epc.NextSyncCommittee != nil && sc_src(epc.NextSyncCommittee) == st_nextsync(old(unboxptr(state, beacon.StandardUpgradeableBeaconState).BeaconState)) && (old(epc.NextSyncCommittee) != nil ==> epc.CurrentSyncCommittee == old(epc.NextSyncCommittee)) && (old(epc.NextSyncCommittee) == nil ==> epc.CurrentSyncCommittee != nil && sc_src(epc.CurrentSyncCommittee) == st_cursync(old(unboxptr(state, beacon.StandardUpgradeableBeaconState).BeaconState)))
+//@   ensures c08_sync_kept@C08: err == nil && old(epc.NextEpoch.Epoch) % epc.Spec.EPOCHS_PER_SYNC_COMMITTEE_PERIOD != 0 ==> epc.CurrentSyncCommittee == old(epc.CurrentSyncCommittee) && epc.NextSyncCommittee == old(epc.NextSyncCommittee)
 //@   ensures next: err == nil ==> epc.NextEpoch != nil && epc.NextEpoch.Epoch == old(epc.NextEpoch.Epoch) + 1 && epc.Proposers != nil && epc.Proposers.Epoch == epc.CurrentEpoch.Epoch
 //@   ensures stake: err == nil ==> len(epc.EffectiveBalances) == reg_len(st_vals(state)) && (forall k :: {epc.EffectiveBalances[k]} 0 <= k && k < len(epc.EffectiveBalances) ==> epc.EffectiveBalances[k] == v_eb(reg_val(st_vals(state), k))) && epc.TotalActiveStake >= epc.Spec.EFFECTIVE_BALANCE_INCREMENT && epc.TotalActiveStakeSqRoot * epc.TotalActiveStakeSqRoot <= epc.TotalActiveStake && epc.TotalActiveStake < (epc.TotalActiveStakeSqRoot + 1) * (epc.TotalActiveStakeSqRoot + 1)
 
